@@ -278,7 +278,7 @@ NcStep(v) ==
 VKind(prog, v) ==
   IF v.done # "no" THEN ""
   ELSE IF v.nc # -2 THEN NcKind(v)
-  ELSE IF v.pc <= Len(VBody(prog, v.fn)) THEN "vm-" \o VBody(prog, v.fn)[v.pc].op ELSE "vm-return"
+  ELSE IF v.pc <= Len(VBody(prog, v.fn)) THEN VBody(prog, v.fn)[v.pc].op ELSE "return"
 VStep(prog, v) ==
   IF v.nc # -2 THEN NcStep(v)
   ELSE IF v.pc <= Len(VBody(prog, v.fn)) THEN VExec(v, VBody(prog, v.fn)[v.pc], v.pc) ELSE VReturn(v)
